@@ -387,6 +387,24 @@ def main(argv: List[str]) -> int:
             if not (r1 == r2) or not (l1 == l2) or repr(r1) != repr(r2):
                 if mut_bad is None:
                     mut_bad = (f"a Range whose start was edited in place from {a0} to {a1} does not compare / print like a Range built with {a1}", {"first": a0, "edited_to": a1})
+    # equal values of another type earlier in the process (the validators accept True for 1): reprs and comparisons of later, plain-int
+    # positions must not remember them (a memo table keyed by == would)
+    if mut_bad is None:
+        for first, later in (((True, False), (1, 0)), ((1, 0), (True, False)), ((2, True), (2, 1))):
+            try:
+                pf = P(line=first[0], character=first[1])
+                rf = R(start=pf, end=pf)
+                (repr(pf), repr(rf), repr(Lc(uri="u", range=rf)), pf == pf, pf <= pf)
+            except Exception:
+                continue
+            pl = P(line=later[0], character=later[1])
+            rl = R(start=pl, end=pl)
+            mut_n += 3
+            want = f"{later[0]}:{later[1]}"
+            got = (repr(pl), repr(rl), repr(Lc(uri="u", range=rl)))
+            if got != (want, f"{want}-{want}", f"u:{want}-{want}"):
+                mut_bad = (f"after a Position with the equal values {first} was printed, repr of Position{later} / its Range / Location is {got}", {"first": list(map(repr, first)), "later": list(map(repr, later)), "operator": "repr"})
+                break
     if mut_bad is not None:
         run.violation("C20:mutation-history", "comparison does not follow the current field values after an in-place edit — " + mut_bad[0], {**mut_bad[1], "replay": "build the objects, compare once, assign the fields, compare again"}, True)
 
